@@ -68,6 +68,7 @@ def run(rep, tier, seed):
         ]
     U.machine_check(rep, configs, "C13", variants=(0, 1))
     fft_axes(rep, load_algopy(), seed)
+    U.dirty_out_check(rep, load_algopy(), ("diag", "diag_k1", "diag_extract", "tril", "triu"), seed)
     U.self_test(rep)
     rep.assumptions += ["NumPy itself is the executable reference for each slice operation (cross-check of the NDA operators)",
                         "reshape is generated only where NumPy's view/copy choice is unambiguous (contiguous data -> view, transposed matrix -> copy)"]
